@@ -77,6 +77,67 @@ def rename_module(src):
     return ast.unparse(tree), count
 
 
+class IfSwap(ast.NodeTransformer):
+    """`if c: A else: B` -> `if not c: B else: A` (two-armed ifs and conditional expressions)"""
+
+    n = 0
+
+    def visit_If(self, node):
+        self.generic_visit(node)
+        if node.orelse and not (len(node.orelse) == 1 and isinstance(node.orelse[0], ast.If)):
+            IfSwap.n += 1
+            t = node.test.operand if isinstance(node.test, ast.UnaryOp) and isinstance(node.test.op, ast.Not) else ast.UnaryOp(op=ast.Not(), operand=node.test)
+            node.test, node.body, node.orelse = t, node.orelse, node.body
+        return node
+
+    def visit_IfExp(self, node):
+        self.generic_visit(node)
+        IfSwap.n += 1
+        t = node.test.operand if isinstance(node.test, ast.UnaryOp) and isinstance(node.test.op, ast.Not) else ast.UnaryOp(op=ast.Not(), operand=node.test)
+        node.test, node.body, node.orelse = t, node.orelse, node.body
+        return node
+
+
+class IfSplit(ast.NodeTransformer):
+    """`if a and b: X` (no else) -> `if a:\n    if b: X`"""
+
+    n = 0
+
+    def visit_If(self, node):
+        self.generic_visit(node)
+        if not node.orelse and isinstance(node.test, ast.BoolOp) and isinstance(node.test.op, ast.And):
+            IfSplit.n += 1
+            vals = node.test.values
+            inner = ast.If(test=vals[-1] if len(vals) == 2 else ast.BoolOp(op=ast.And(), values=vals[1:]), body=node.body, orelse=[])
+            node.test, node.body = vals[0], [inner]
+        return node
+
+
+class IfMerge(ast.NodeTransformer):
+    """`if a:\n    if b: X` (no elses, nothing else in the outer body) -> `if a and b: X`"""
+
+    n = 0
+
+    def visit_If(self, node):
+        self.generic_visit(node)
+        if not node.orelse and len(node.body) == 1 and isinstance(node.body[0], ast.If) and not node.body[0].orelse:
+            IfMerge.n += 1
+            inner = node.body[0]
+            node.test = ast.BoolOp(op=ast.And(), values=[node.test, inner.test])
+            node.body = inner.body
+        return node
+
+
+def transform_module(src, mode):
+    if mode == "rename":
+        return rename_module(src)
+    cls = {"ifswap": IfSwap, "ifsplit": IfSplit, "ifmerge": IfMerge}[mode]
+    cls.n = 0
+    tree = cls().visit(ast.parse(src))
+    ast.fix_missing_locations(tree)
+    return ast.unparse(tree), cls.n
+
+
 def findings(tree):
     out = set()
     errs = set()
@@ -112,26 +173,31 @@ def main():
 
     base = core.Tree()
     bf, be = findings(base)
-    sel = sys.argv[1:]
+    args = sys.argv[1:]
+    mode = "rename"
+    if args[:1] == ["--mode"]:
+        mode = args[1]
+        args = args[2:]
+    sel = args
     jobs = []
     for name, mod in sorted(base.modules.items()):
         if sel and not any(s in mod.path for s in sel):
             continue
-        new_src, n = rename_module(mod.src)
+        new_src, n = transform_module(mod.src, mode)
         if n:
             jobs.append((mod.path, new_src, n, bf, be))
     total_f = total_e = 0
     with multiprocessing.Pool(14) as pool:
         for path, n, nf, ne in pool.imap_unordered(_one, jobs):
             if nf or ne:
-                print(f"== {path}: {n} locals renamed")
+                print(f"== {path}: {n} sites transformed ({mode})")
                 for x in nf:
                     print("   FINDING", x[0], x[1].split("::")[-1], "|", x[2][:150])
                 for x in ne:
                     print("   ERROR  ", x)
                 total_f += len(nf)
                 total_e += len(ne)
-    print(f"alpha fuzz: {len(jobs)} modules, {total_f} findings, {total_e} analysis errors caused by renaming locals")
+    print(f"fuzz[{mode}]: {len(jobs)} modules, {total_f} findings, {total_e} analysis errors caused by a behaviour-preserving transformation")
     return 1 if total_f or total_e else 0
 
 
